@@ -217,7 +217,7 @@ Section BuildRep.
       split.
       + unfold pend, drv, need, okb. cbn.
         destruct m as [m'|], s as [s'|], n as [n'|]; cbn; rewrite ?umin_build;
-          try reflexivity; unfold diff, inter; try (destruct (min_of s' =? 0); cbn);
+          try reflexivity; unfold diff, inter; try (destruct (min_of s' <=? 0); cbn);
           rewrite ?filter_filter; try (apply filter_ext_in'; intros x _; cbn; destruct (memb x (denote n')); destruct (memb x (denote s')); reflexivity);
           try (apply filter_ext_in'; intros x _; cbn; destruct (memb x (denote n')); reflexivity);
           try (apply filter_ext_in'; intros x _; cbn; destruct (memb x (denote s')); reflexivity);
